@@ -282,6 +282,9 @@ func ruleTopicChannels(c *Check, rule string) {
 			continue
 		}
 		name := QualName(fn)
+		if unknownHelper(fn, 0) && hasRepoCaller(c.P, fn) {
+			continue // a new helper is walked as part of each of its callers
+		}
 		w := Walk(c.P, fn, WalkConfig{Memo: true,
 			KeepEvent: func(e *Event) bool {
 				return e.Kind == "send" || e.Kind == "ret" || e.Kind == "call" && e.Callee == "builtin:close"
